@@ -314,7 +314,7 @@ CONFIG = {
         "the hash function is a parameter H of the models (SHA-256 in the harness); the refinement theorem only needs that H yields well-formed digests (no collision-freeness): the body digest itself is checked by the consumer (C05); only sha256 digests are generated",
         "mime.ParseMediaType is a parameter parse_mt : str -> option str (None = error); refinement assumes it is the identity on the media types the caller uses and on application/octet-stream -- media types mime would rewrite (upper case, parameters) are outside the theorems and the generator (audit F9/F11: generateBlobDescriptor ignores mime's error, so a Content-Type like 'text/plain; a' yields 'text/plain' in the code and octet-stream in the model; not generated)",
         "JSON decoding of a manifest's subject is ONE parameter subject_of of the bytes (None = undecodable) standing for the four decoders of push/delete; manifests that decode for Delete but not for the typed decoders of Push are not generated; the history-level refinement theorem covers decodable manifests whose subject, if any, is pushed to a registry with the Referrers API (OCI-Subject), and Predecessors over that API (single page; pagination: composition with C15)",
-        "referrers TAG schema (registry without the Referrers API; sequential -- concurrency is C14): referrersFromIndex, updateReferrersIndex, applyReferrerChanges (at most one change), generateIndex (gen_index renders the exact JSON bytes), decodeJSON (reads exactly desc.Size bytes and verifies the digest: decode_json_verifies, configured by the translator's decodeJSON_calls), the Predecessors fallback on ErrUnsupported, SkipReferrersGC (parameter skip_gc), the deletion of the old index and deleteWithIndexing's "finish the deletion when only the clean-up of the dangling index failed" branch (update_referrers_index_x; found missing in the model in the second extension round: the generator reaches it ~once per 2000 histories, a regression case is in the corpus) are executable Gallina, compared on every request/response and judged by the oracle (generated in every profile, incl. single-field corruptions of the GET/HEAD of the referrers tag). JSON DEcoding of an index is a parameter index_of; the theorems ask index_of (gen_index l) = Some l only for the two indexes involved (the one read, the one written) -- for ALL lists it would be unsatisfiable because gen_index does not escape quotes -- and subject_of (gen_index l) = Some None; satisfiable: Example C13_push_subject_satisfiable discharges every hypothesis by computation (the OCaml driver parses the generated format with a regex; the vm_compute sample uses an independent Python rendering). Theorems: function level (updateReferrersIndex then read), every SEQUENCE of referrer changes of one subject (C13_tag_schema_changes: refines applyReferrerChanges step by step under per-step side conditions changes_ok: change effective, index decodes, fits the limit, no digest collision old/new index unless SkipReferrersGC) OPERATION level (Push/Delete of a manifest with subject, then Predecessors; any registry state satisfying minv, unique tag keys, no digest collision between the manifest and the indexes) and HISTORY level for one subject (C13_tag_schema_history: every sequence of Push/Delete of manifests with subject sj and Predecessors(sj) run by run_ops: Push/Delete succeed, each Predecessors lists the index of that moment, the referrers tag ends at what applyReferrerChanges yields; ts_hist_ok checks the local side conditions of each operation in the state it meets, like wf_hist; satisfiable: C13_tag_schema_history_satisfiable) -- histories that MIX subjects or interleave other operations with subject-carrying manifests on a registry without the API are not covered, and these theorems are NOT part of the refinement theorem against the store specification (wf_hist still confines subjects to registries with the API); artifactType/annotations of index entries are not modelled (not generated)",
+        "referrers TAG schema (registry without the Referrers API; sequential -- concurrency is C14): referrersFromIndex, updateReferrersIndex, applyReferrerChanges (at most one change), generateIndex (gen_index renders the exact JSON bytes), decodeJSON (reads exactly desc.Size bytes and verifies the digest: decode_json_verifies, configured by the translator's decodeJSON_calls), the Predecessors fallback on ErrUnsupported, SkipReferrersGC (parameter skip_gc), the deletion of the old index and deleteWithIndexing's 'finish the deletion when only the clean-up of the dangling index failed' branch (update_referrers_index_x; found missing in the model in the second extension round: the generator reaches it ~once per 2000 histories, a regression case is in the corpus) are executable Gallina, compared on every request/response and judged by the oracle (generated in every profile, incl. single-field corruptions of the GET/HEAD of the referrers tag). JSON DEcoding of an index is a parameter index_of; the theorems ask index_of (gen_index l) = Some l only for the two indexes involved (the one read, the one written) -- for ALL lists it would be unsatisfiable because gen_index does not escape quotes -- and subject_of (gen_index l) = Some None; satisfiable: Example C13_push_subject_satisfiable discharges every hypothesis by computation (the OCaml driver parses the generated format with a regex; the vm_compute sample uses an independent Python rendering). Theorems: function level (updateReferrersIndex then read), every SEQUENCE of referrer changes of one subject (C13_tag_schema_changes: refines applyReferrerChanges step by step under per-step side conditions changes_ok: change effective, index decodes, fits the limit, no digest collision old/new index unless SkipReferrersGC) OPERATION level (Push/Delete of a manifest with subject, then Predecessors; any registry state satisfying minv, unique tag keys, no digest collision between the manifest and the indexes) and HISTORY level for one subject (C13_tag_schema_history: every sequence of Push/Delete of manifests with subject sj and Predecessors(sj) run by run_ops: Push/Delete succeed, each Predecessors lists the index of that moment, the referrers tag ends at what applyReferrerChanges yields; ts_hist_ok checks the local side conditions of each operation in the state it meets, like wf_hist; satisfiable: C13_tag_schema_history_satisfiable) -- histories that MIX subjects or interleave other operations with subject-carrying manifests on a registry without the API are not covered, and these theorems are NOT part of the refinement theorem against the store specification (wf_hist still confines subjects to registries with the API); artifactType/annotations of index entries are not modelled (not generated)",
         "MaxMetadataBytes is a parameter limit (default regenerated from utils.go): limitSize on pushed/deleted indexable manifests and the bound on the body hashed by generateDescriptor are modelled; the refinement theorem assumes manifests no larger than the limit (larger ones are refused, after fix ed36700 never truncated); the byte size of a generated referrers index is modelled (len (gen_index l) against the limit) but near-limit histories are generated without subjects",
         "Repository.ParseReference is the C20 model repo_parse (proved in C20); the correspondence uses references without '/' so that net/url registry validation is not involved; fully qualified references are C20's subject",
         "op_ok / wf_hist: descriptors carry a VALID digest and a media type and are accurate for what the store holds. The client does not validate target.Digest itself: Fetch(desc{Digest: '../x'}) emits a non-spec URL -- a caller inconsistency outside the property's quantifier, not generated (audit F5)",
